@@ -86,6 +86,20 @@ func elemKey(t types.Type) string {
 	if isStruct(t) {
 		return structKey(t)
 	}
+	// slices / arrays of pointers are separated by the pointee's named type: a []*big.Int can
+	// never share a backing array with a []*Transaction (Go has no conversion between them)
+	if p, ok := types.Unalias(t).Underlying().(*types.Pointer); ok {
+		if _, isNamed := types.Unalias(t).(*types.Pointer); isNamed {
+			if n, ok := types.Unalias(p.Elem()).(*types.Named); ok {
+				if key, ok := specialNamed(n); ok {
+					return "*" + key
+				}
+				if _, ok := n.Underlying().(*types.Struct); ok {
+					return "*" + shortQual(n)
+				}
+			}
+		}
+	}
 	return typeKey(t)
 }
 
